@@ -109,15 +109,7 @@ var (
 // it whose output and log writers fail: nothing of that may stick to the option values.
 // (Single goroutine only.)
 func InterpretReused(src []byte) ImplResult {
-	if reOpts == nil {
-		reOpts = []bcl.Option{bcl.OptOutput(&reOut), bcl.OptLogger(&reLog)}
-		reOut.fail, reLog.fail = true, true
-		protect(func() {
-			bcl.Interpret([]byte("print 1\ndef b { x = 1 }\nbind b -> struct\nbind b -> struct\nprint 1 / 0\n"), reOpts...)
-		})
-		protect(func() { bcl.Parse([]byte("var = 1\nprint +\nprint @\n"), "prime", reOpts...) })
-		reOut.fail, reLog.fail = false, false
-	}
+	primeReused()
 	var r ImplResult
 	var out, lg bytes.Buffer
 	reOut.w, reLog.w = &out, &lg
@@ -129,12 +121,28 @@ func InterpretReused(src []byte) ImplResult {
 	return r
 }
 
-// ParseOnly runs bcl.Parse.
+func primeReused() {
+	if reOpts == nil {
+		reOpts = []bcl.Option{bcl.OptOutput(&reOut), bcl.OptLogger(&reLog)}
+		reOut.fail, reLog.fail = true, true
+		protect(func() {
+			bcl.Interpret([]byte("print 1\ndef b { x = 1 }\nbind b -> struct\nbind b -> struct\nprint 1 / 0\n"), reOpts...)
+		})
+		protect(func() { bcl.Parse([]byte("var = 1\nprint +\nprint @\n"), "prime", reOpts...) })
+		reOut.fail, reLog.fail = false, false
+	}
+}
+
+// ParseOnly runs bcl.Parse, through the option slice that is reused for every call (see InterpretReused).
+// (Single goroutine only.)
 func ParseOnly(src []byte, name string) (prog *bcl.Prog, log string, err error, pan, stack string) {
+	primeReused()
 	var lg, out bytes.Buffer
+	reOut.w, reLog.w = &out, &lg
 	pan, stack = protect(func() {
-		prog, err = bcl.Parse(src, name, bcl.OptLogger(&lg), bcl.OptOutput(&out))
+		prog, err = bcl.Parse(src, name, reOpts...)
 	})
+	reOut.w, reLog.w = nil, nil
 	return prog, lg.String(), err, pan, stack
 }
 
